@@ -132,8 +132,8 @@ class CompileEngine:
         path = os.path.join(self.dir, "src", "bin", self._bin_name(i) + ".rs")
         with open(path, "w") as f:
             f.write("".join(parts))
-        if os.environ.get("VERIF_COVERAGE"):   # diagnostic mode: keep a copy of every generated program for `inproc cover`
-            d = os.path.join(os.environ["VERIF_COVERAGE"], "programs")
+        if os.environ.get("VERIF_COVERAGE") or os.environ.get("VERIF_KEEP_PROGRAMS"):   # diagnostic modes: keep a copy of every generated program for `inproc cover`
+            d = os.environ.get("VERIF_KEEP_PROGRAMS") or os.path.join(os.environ["VERIF_COVERAGE"], "programs")
             os.makedirs(d, exist_ok=True)
             shutil.copy(path, os.path.join(d, "%s_%s_%d.rs" % (self.prop.lower(), self.toolchain or "stable", len(os.listdir(d)))))
         return spans
